@@ -1049,7 +1049,9 @@ class MyPyAstVisitor:
         if isinstance(mypy_type, mp_types.TupleType):
             return sds_types.TupleType(types=[self.mypy_type_to_abstract_type(item) for item in mypy_type.items])
         elif isinstance(mypy_type, mp_types.UnionType):
-            return sds_types.UnionType(types=[self.mypy_type_to_abstract_type(item) for item in mypy_type.items])
+            # Unions that are members of a union through a type alias are not flattened by Mypy
+            union_items = mp_types.flatten_nested_unions(mypy_type.items, handle_recursive=False)
+            return sds_types.UnionType(types=[self.mypy_type_to_abstract_type(item) for item in union_items])
 
         # Special Cases
         elif isinstance(mypy_type, mp_types.TypeVarType):
